@@ -640,7 +640,7 @@ fn line(label: &str, stmts: Vec<SStmt>, fail: Fail, has_value: bool, injectable:
     }
 }
 
-pub const ALPHABET: usize = 25;
+pub const ALPHABET: usize = 26;
 
 /// Template `t` at session position `pos` (names are position-based, so never re-declared).
 fn template(t: usize, pos: usize, env: &mut GEnv) -> SLine {
@@ -822,6 +822,11 @@ fn template(t: usize, pos: usize, env: &mut GEnv) -> SLine {
                 false,
                 false,
             )
+        }
+        25 => {
+            // the user just presses enter (or types blanks / a comment): an empty program
+            let text = ["", "   ", "// niets"][pos % 3];
+            line("empty", vec![st(text, false)], Fail::None, false, true)
         }
         _ => match env.latest("arr") {
             // a value handed out earlier (the array) receives a fresh element, a collection runs, it is read again
@@ -1076,6 +1081,10 @@ impl<'a> SGen<'a> {
             );
             self.add(&i, Ty::Int, 0);
             return l;
+        }
+        if self.rng.chance(1, 16) {
+            let text = *self.rng.pick(&["", " ", "// commentaar", "\t"]);
+            return line("empty", vec![st(text, false)], Fail::None, false, true);
         }
         if !self.failed_names.is_empty() && self.rng.chance(1, 3) {
             // a name that only a failed line declared is free: declare it and read it
